@@ -257,7 +257,7 @@ def state_type(path, i, st):
         return "M_%s" % pname(path + (i,))
     return "S_%s_%d" % (pname(path), i)
 
-def gen_cxx(md, policy=0):
+def gen_cxx(md, policy=0, introspect=False):
     L = []
     w = L.append
     evs = user_events(md)
@@ -275,6 +275,16 @@ def gen_cxx(md, policy=0):
     flags = sorted({f for _, m in walk(md["root"]) for st in m["states"] for f in st["flags"]})
     nflags = (max(flags) + 1) if flags else 0
     w("#define H_FLAGS(X) " + " ".join("X(%d)" % f for f in range(nflags)))
+    if introspect:
+        w("#include <algorithm>")
+        w("namespace H {")
+        w("// \"library path of the owning machine : library id\" of a state object handed to a visitor")
+        w("inline std::string who(const char* ownerdecl, int decl) { return lp(ownerdecl) + \":\" + std::to_string(lib_id(ownerdecl, decl)); }")
+        w("template <class S> std::string whoami(S const&) {")
+        w("  if constexpr (requires { S::h_owner(); }) return who(S::h_owner(), S::h_decl());")
+        w("  else { std::string p(S::path()); auto k = p.rfind('.'); std::string owner = p.substr(0, k); return who(owner.c_str(), std::atoi(p.c_str() + k + 1)); }")
+        w("}")
+        w("}")
     w("template <class C> struct Def {")
     machines = list(walk(md["root"]))
     # deepest first so that submachine back-end types are complete when used
@@ -328,6 +338,8 @@ def gen_cxx(md, policy=0):
                 w("      typedef mpl::vector<%s> deferred_events;" % ", ".join("Ev%d" % e for e in st["defers"]))
             if st["flags"]:
                 w("      typedef mpl::vector<%s> flag_list;" % ", ".join("Flag<%d>" % f for f in st["flags"]))
+            if introspect:
+                w("      static const char* h_owner() { return \"%s\"; } static int h_decl() { return %d; }" % (pstr(path), i))
             w("      template <class E, class F> void on_entry(E const& e, F& f) { H::cb(\"N\", F::path(), H::lib_id(F::path(), %d), e, f); }" % i)
             w("      template <class E, class F> void on_exit(E const& e, F& f) { H::cb(\"X\", F::path(), H::lib_id(F::path(), %d), e, f); }" % i)
             if st["sirows"]:
@@ -382,6 +394,26 @@ def gen_cxx(md, policy=0):
         name = pname(path)
         w("  static void snap_%s(M_%s& f, const char* tag = \"SNAP\") {" % (name, name))
         w("    std::printf(\"%s %s [%s]\\n\", tag, H::lp(f.path()).c_str(), H::obs(f).c_str());")
+        if introspect:
+            # introspection agreement (comment lines: not part of the compared trace, read by the C03 monitor)
+            w("#ifdef H_INTROSPECT")
+            w("    if (std::string(tag) == \"SNAP\") {")
+            w("#ifdef H_MP11")
+            w("      std::printf(\"#ACT %s [\", H::lp(f.path()).c_str());")
+            for i, st in enumerate(m["states"]):
+                w("      if (f.template is_state_active<%s>()) std::printf(\" %%d\", H::lib_id(\"%s\", %d));" % (id_type(path, i, st), pstr(path), i))
+            w("      std::printf(\" ]\\n\");")
+            if not path:
+                w("      { std::vector<std::string> v; f.visit([&](auto& st) { v.push_back(H::whoami(st)); });")
+                w("        std::sort(v.begin(), v.end()); std::printf(\"#VIS\"); for (auto& x : v) std::printf(\" %s\", x.c_str()); std::printf(\"\\n\"); }")
+            w("#else")
+            w("      std::printf(\"#GSI %s\", H::lp(f.path()).c_str());")
+            for i, st in enumerate(m["states"]):
+                w("      std::printf(\" %%d\", (int)(f.get_state_by_id(H::lib_id(\"%s\", %d)) == static_cast<const typename M_%s::BaseState*>(&f.template get_state<%s&>())));" % (pstr(path), i, name, id_type(path, i, st)))
+            w("      std::printf(\"\\n\");")
+            w("#endif")
+            w("    }")
+            w("#endif")
         w("    for (int a : H::ids(f)) {")
         for i, st in enumerate(m["states"]):
             if st["sub"] is not None:
